@@ -178,6 +178,8 @@ class LineBox(WidgetDecoration[WrappedWidget], delegate_to_widget_mixin("_wrappe
         middle: Columns = typing.cast("Columns", self._wrapped_widget[v_index])
         _old_widget, options = middle.contents[h_index]
         middle.contents[h_index] = (original_widget, options)
+        # the outer Pile caches whether it is selectable when ITS contents change; the middle row just changed underneath it
+        self._wrapped_widget._contents_modified()
         WidgetDecoration.original_widget.fset(self, original_widget)
 
     @property
